@@ -64,7 +64,7 @@ def unrelated_ok(h):
     return None
 
 
-LEAF = {"dag1": "L", "dag2": "K"}
+LEAF = {"dag1": "L", "dag2": "K", "dag1h": "L"}
 
 
 def edit_module(h, built, dname, mname):
@@ -121,7 +121,7 @@ def _bomb(item):
 
     dname, top, pos, victim, cont = item[:5]
     Raised = KeyboardInterrupt if len(item) > 5 and item[5] == "interrupt" else RuntimeError
-    design = dags.DAGS[dname]()
+    design = dags.ALL[dname]()
     built = build(design)
     vmod = built.modules[victim]
 
@@ -183,7 +183,7 @@ def _subclass_fault(item):
     from ..build import build
 
     dname, top, pos, victim = item
-    design = dags.DAGS[dname]()
+    design = dags.ALL[dname]()
     built = build(design)
     vmod = built.modules[victim]
     default = Elaborator.default().passes
@@ -226,7 +226,7 @@ def _real(item):
     from ..build import build, mk_expr
 
     dname, top, k, entry, cont = item
-    base = dags.with_top(dags.DAGS[dname](), top)
+    base = dags.with_top(dags.ALL[dname](), top)
     muts = mutate.classified(base)
     if k >= len(muts):
         return ("skip", None, None)
@@ -506,7 +506,7 @@ def run(ctx):
     # injected faults
     items = []
     for dname, tops in (("dag1", ["T", "T2"]), ("dag2", ["P", "Q"])):
-        design = dags.DAGS[dname]()
+        design = dags.ALL[dname]()
         for top in tops:
             victims = [m for m in design["modules"] if contains(design, top, m)]
             for pos in range(10):  # before each of the ten default passes (a pass placed after the final marking pass visits nothing)
@@ -528,7 +528,7 @@ def run(ctx):
     # faults inside a subclass that replaces one of the default passes
     sitems = []
     for dname, tops in (("dag1", ["T"]), ("dag2", ["P"])):
-        design = dags.DAGS[dname]()
+        design = dags.ALL[dname]()
         for top in tops:
             for pos in range(10):
                 for v in [m for m in design["modules"] if contains(design, top, m)]:
@@ -544,14 +544,16 @@ def run(ctx):
             ctx.violation(dict(fault="subclassed_pass", position=it[2], continuation="-", what="harness: fault did not fire"), dict(kind="subclass", item=list(it)), str(detail))
     # real faults
     ritems = []
-    for dname, tops in (("dag1", ["T", "T2"]), ("dag2", ["P", "Q"])):
+    for dname, tops in (("dag1h", ["T"]), ("dag1", ["T", "T2"]), ("dag2", ["P", "Q"])):
         for top in tops:
-            base = dags.with_top(dags.DAGS[dname](), top)
+            base = dags.with_top(dags.ALL[dname](), top)
             n = len(mutate.classified(base))
             stride = 1 if not ctx.quick else 2
             for k in range(n):
                 for entry in ("to_proto",) if ctx.quick else ("elaborate", "to_proto", "netlist"):
                     for cont in ("retry", "others", "others_parents_first", "other_parents", "edit_healthy", "repair"):
+                        if ctx.quick and dname == "dag1h" and cont != "edit_healthy":
+                            continue  # dag1h adds a late healthy module to dag1: its point is what happens to that module
                         # the other-parents continuation runs on every classified mutant in both tiers
                         if cont == "other_parents" or k % stride == ctx.seed % stride:
                             ritems.append((dname, top, k, entry, cont))
